@@ -1,1 +1,364 @@
+//! Transaction / protocol-value generators (DESIGN.md 2.4).
+//!
+//! `free_*`: any field values inside each field's domain (for C01–C04, C06, C07 and as the
+//! mutation base of C02).
 
+use crate::Rng;
+use fuel_tx::{
+    BlobBody,
+    Input,
+    Output,
+    Receipt,
+    ScriptExecutionResult,
+    StorageSlot,
+    Transaction,
+    TxPointer,
+    UpgradePurpose,
+    UploadBody,
+    UtxoId,
+    Witness,
+    policies::{
+        Policies,
+        PolicyType,
+    },
+};
+use fuel_types::{
+    Address,
+    AssetId,
+    BlobId,
+    Bytes32,
+    ContractId,
+    Nonce,
+    Salt,
+    SubAssetId,
+};
+
+pub const INPUT_VARIANTS: usize = 7;
+pub const OUTPUT_VARIANTS: usize = 5;
+pub const TX_KINDS: usize = 6;
+pub const RECEIPT_VARIANTS: usize = 13;
+
+pub const POLICY_ORDER: [PolicyType; 6] = [
+    PolicyType::Tip,
+    PolicyType::WitnessLimit,
+    PolicyType::Maturity,
+    PolicyType::MaxFee,
+    PolicyType::Expiration,
+    PolicyType::Owner,
+];
+
+pub fn b32(rng: &mut Rng) -> [u8; 32] {
+    rng.id32(6)
+}
+pub fn address(rng: &mut Rng) -> Address {
+    Address::new(b32(rng))
+}
+pub fn asset(rng: &mut Rng) -> AssetId {
+    AssetId::new(b32(rng))
+}
+pub fn contract_id(rng: &mut Rng) -> ContractId {
+    ContractId::new(b32(rng))
+}
+pub fn bytes32(rng: &mut Rng) -> Bytes32 {
+    Bytes32::new(b32(rng))
+}
+pub fn nonce(rng: &mut Rng) -> Nonce {
+    Nonce::new(b32(rng))
+}
+
+pub fn u16_biased(rng: &mut Rng) -> u16 {
+    match rng.below(6) {
+        0 => 0,
+        1 => 1,
+        2 => u16::MAX,
+        3 => u16::MAX - 1,
+        4 => 255 + rng.below(3) as u16,
+        _ => rng.u64() as u16,
+    }
+}
+
+pub fn u32_biased(rng: &mut Rng) -> u32 {
+    match rng.below(6) {
+        0 => 0,
+        1 => 1,
+        2 => u32::MAX,
+        3 => u32::MAX - 1,
+        4 => 0xffff + rng.below(3) as u32,
+        _ => rng.u64() as u32,
+    }
+}
+
+pub fn utxo_id(rng: &mut Rng) -> UtxoId {
+    UtxoId::new(bytes32(rng), u16_biased(rng))
+}
+
+pub fn tx_pointer(rng: &mut Rng) -> TxPointer {
+    TxPointer::new(u32_biased(rng).into(), u16_biased(rng))
+}
+
+pub fn storage_slot(rng: &mut Rng) -> StorageSlot {
+    StorageSlot::new(bytes32(rng), bytes32(rng))
+}
+
+pub fn witness(rng: &mut Rng, cap: usize) -> Witness {
+    rng.bytes_len_class(cap).into()
+}
+
+/// all 64 masks; values from the boundary set; maturity/expiration are block heights
+pub fn policies(rng: &mut Rng, mask: u32) -> Policies {
+    let mut p = Policies::new();
+    for (i, t) in POLICY_ORDER.iter().enumerate() {
+        if mask & (1 << i) != 0 {
+            let v = match t {
+                PolicyType::Maturity | PolicyType::Expiration => u32_biased(rng) as u64,
+                _ => rng.word(),
+            };
+            p.set(*t, Some(v));
+        }
+    }
+    p
+}
+
+/// non-empty byte vector of a length class
+fn nonempty(rng: &mut Rng, cap: usize) -> Vec<u8> {
+    loop {
+        let v = rng.bytes_len_class(cap);
+        if !v.is_empty() {
+            return v;
+        }
+    }
+}
+
+/// Input of the given variant (0..7). `allow_empty_distinguishing`: whether the byte vector
+/// that distinguishes the variant on the wire (predicate / message data) may be empty.
+pub fn input(rng: &mut Rng, variant: usize, cap: usize, allow_empty_distinguishing: bool) -> Input {
+    let dist = |rng: &mut Rng| {
+        if allow_empty_distinguishing && rng.chance(1, 6) {
+            vec![]
+        } else {
+            nonempty(rng, cap)
+        }
+    };
+    match variant % INPUT_VARIANTS {
+        0 => Input::coin_signed(utxo_id(rng), address(rng), rng.word(), asset(rng), tx_pointer(rng), u16_biased(rng)),
+        1 => {
+            let p = dist(rng);
+            Input::coin_predicate(utxo_id(rng), address(rng), rng.word(), asset(rng), tx_pointer(rng), rng.word(), p, rng.bytes_len_class(cap))
+        }
+        2 => Input::contract(utxo_id(rng), bytes32(rng), bytes32(rng), tx_pointer(rng), contract_id(rng)),
+        3 => Input::message_coin_signed(address(rng), address(rng), rng.word(), nonce(rng), u16_biased(rng)),
+        4 => {
+            let p = dist(rng);
+            Input::message_coin_predicate(address(rng), address(rng), rng.word(), nonce(rng), rng.word(), p, rng.bytes_len_class(cap))
+        }
+        5 => {
+            let d = dist(rng);
+            Input::message_data_signed(address(rng), address(rng), rng.word(), nonce(rng), u16_biased(rng), d)
+        }
+        _ => {
+            let d = dist(rng);
+            let p = dist(rng);
+            Input::message_data_predicate(address(rng), address(rng), rng.word(), nonce(rng), rng.word(), d, p, rng.bytes_len_class(cap))
+        }
+    }
+}
+
+pub fn input_variant_name(i: &Input) -> &'static str {
+    match i {
+        Input::CoinSigned(_) => "CoinSigned",
+        Input::CoinPredicate(_) => "CoinPredicate",
+        Input::Contract(_) => "Contract",
+        Input::MessageCoinSigned(_) => "MessageCoinSigned",
+        Input::MessageCoinPredicate(_) => "MessageCoinPredicate",
+        Input::MessageDataSigned(_) => "MessageDataSigned",
+        Input::MessageDataPredicate(_) => "MessageDataPredicate",
+    }
+}
+
+pub fn output(rng: &mut Rng, variant: usize) -> Output {
+    match variant % OUTPUT_VARIANTS {
+        0 => Output::coin(address(rng), rng.word(), asset(rng)),
+        1 => Output::contract(u16_biased(rng), bytes32(rng), bytes32(rng)),
+        2 => Output::change(address(rng), rng.word(), asset(rng)),
+        3 => Output::variable(address(rng), rng.word(), asset(rng)),
+        _ => Output::contract_created(contract_id(rng), bytes32(rng)),
+    }
+}
+
+pub fn output_variant_name(o: &Output) -> &'static str {
+    match o {
+        Output::Coin { .. } => "Coin",
+        Output::Contract(_) => "Contract",
+        Output::Change { .. } => "Change",
+        Output::Variable { .. } => "Variable",
+        Output::ContractCreated { .. } => "ContractCreated",
+    }
+}
+
+pub fn receipt(rng: &mut Rng, variant: usize, cap: usize) -> Receipt {
+    let id = contract_id(rng);
+    match variant % RECEIPT_VARIANTS {
+        0 => Receipt::call(id, contract_id(rng), rng.word(), asset(rng), rng.word(), rng.word(), rng.word(), rng.word(), rng.word()),
+        1 => Receipt::ret(id, rng.word(), rng.word(), rng.word()),
+        2 => Receipt::return_data(id, rng.word(), rng.word(), rng.word(), rng.bytes_len_class(cap)),
+        3 => {
+            let reason = fuel_asm::PanicReason::from((rng.below(60)) as u8);
+            let pi = fuel_asm::PanicInstruction::error(reason, rng.u32());
+            let r = Receipt::panic(id, pi, rng.word(), rng.word());
+            if rng.bool() { r.with_panic_contract_id(Some(contract_id(rng))) } else { r }
+        }
+        4 => Receipt::revert(id, rng.word(), rng.word(), rng.word()),
+        5 => Receipt::log(id, rng.word(), rng.word(), rng.word(), rng.word(), rng.word(), rng.word()),
+        6 => Receipt::log_data(id, rng.word(), rng.word(), rng.word(), rng.word(), rng.word(), rng.bytes_len_class(cap)),
+        7 => Receipt::transfer(id, contract_id(rng), rng.word(), asset(rng), rng.word(), rng.word()),
+        8 => Receipt::transfer_out(id, address(rng), rng.word(), asset(rng), rng.word(), rng.word()),
+        9 => {
+            let res = match rng.below(4) {
+                0 => ScriptExecutionResult::Success,
+                1 => ScriptExecutionResult::Revert,
+                2 => ScriptExecutionResult::Panic,
+                _ => ScriptExecutionResult::GenericFailure(rng.word().max(3)),
+            };
+            Receipt::script_result(res, rng.word())
+        }
+        10 => Receipt::message_out(&bytes32(rng), rng.word(), address(rng), address(rng), rng.word(), rng.bytes_len_class(cap)),
+        11 => Receipt::mint(SubAssetId::new(b32(rng)), id, rng.word(), rng.word(), rng.word()),
+        _ => Receipt::burn(SubAssetId::new(b32(rng)), id, rng.word(), rng.word(), rng.word()),
+    }
+}
+
+pub fn receipt_variant_name(r: &Receipt) -> &'static str {
+    match r {
+        Receipt::Call { .. } => "Call",
+        Receipt::Return { .. } => "Return",
+        Receipt::ReturnData { .. } => "ReturnData",
+        Receipt::Panic { .. } => "Panic",
+        Receipt::Revert { .. } => "Revert",
+        Receipt::Log { .. } => "Log",
+        Receipt::LogData { .. } => "LogData",
+        Receipt::Transfer { .. } => "Transfer",
+        Receipt::TransferOut { .. } => "TransferOut",
+        Receipt::ScriptResult { .. } => "ScriptResult",
+        Receipt::MessageOut { .. } => "MessageOut",
+        Receipt::Mint { .. } => "Mint",
+        Receipt::Burn { .. } => "Burn",
+    }
+}
+
+pub fn upgrade_purpose(rng: &mut Rng, variant: usize) -> UpgradePurpose {
+    if variant % 2 == 0 {
+        UpgradePurpose::ConsensusParameters { witness_index: u16_biased(rng), checksum: bytes32(rng) }
+    } else {
+        UpgradePurpose::StateTransition { root: bytes32(rng) }
+    }
+}
+
+#[derive(Clone, Copy, Debug)]
+pub struct FreeOpts {
+    /// cap for byte-vector lengths
+    pub cap: usize,
+    pub max_inputs: usize,
+    pub max_outputs: usize,
+    pub max_witnesses: usize,
+    pub allow_empty_distinguishing: bool,
+}
+
+impl Default for FreeOpts {
+    fn default() -> Self {
+        Self { cap: 600, max_inputs: 4, max_outputs: 4, max_witnesses: 4, allow_empty_distinguishing: false }
+    }
+}
+
+pub fn tx_kind_name(t: &Transaction) -> &'static str {
+    match t {
+        Transaction::Script(_) => "Script",
+        Transaction::Create(_) => "Create",
+        Transaction::Mint(_) => "Mint",
+        Transaction::Upgrade(_) => "Upgrade",
+        Transaction::Upload(_) => "Upload",
+        Transaction::Blob(_) => "Blob",
+    }
+}
+
+/// Free-form transaction of the given kind (0..6): any values inside the field domains.
+pub fn free_tx(rng: &mut Rng, kind: usize, o: &FreeOpts) -> Transaction {
+    let mask = rng.below(64) as u32;
+    let pol = policies(rng, mask);
+    let ni = rng.small(o.max_inputs as u64) as usize;
+    let no = rng.small(o.max_outputs as u64) as usize;
+    let nw = rng.small(o.max_witnesses as u64) as usize;
+    let iv = rng.usize_below(INPUT_VARIANTS);
+    let inputs: Vec<Input> = (0..ni)
+        .map(|k| {
+            let v = if rng.bool() { iv + k } else { rng.usize_below(INPUT_VARIANTS) };
+            input(rng, v, o.cap, o.allow_empty_distinguishing)
+        })
+        .collect();
+    let ov = rng.usize_below(OUTPUT_VARIANTS);
+    let outputs: Vec<Output> = (0..no)
+        .map(|k| {
+            let v = if rng.bool() { ov + k } else { rng.usize_below(OUTPUT_VARIANTS) };
+            output(rng, v)
+        })
+        .collect();
+    let witnesses: Vec<Witness> = (0..nw).map(|_| witness(rng, o.cap)).collect();
+    match kind % TX_KINDS {
+        0 => Transaction::script(rng.word(), rng.bytes_len_class(o.cap), rng.bytes_len_class(o.cap), pol, inputs, outputs, witnesses).into(),
+        1 => {
+            let ns = rng.small(4) as usize;
+            let slots = (0..ns).map(|_| storage_slot(rng)).collect();
+            Transaction::create(u16_biased(rng), pol, Salt::new(b32(rng)), slots, inputs, outputs, witnesses).into()
+        }
+        2 => {
+            let ic = match input(rng, 2, 0, false) {
+                Input::Contract(c) => c,
+                _ => unreachable!(),
+            };
+            let oc = match output(rng, 1) {
+                Output::Contract(c) => c,
+                _ => unreachable!(),
+            };
+            Transaction::mint(tx_pointer(rng), ic, oc, rng.word(), asset(rng), rng.word()).into()
+        }
+        3 => {
+            let v = rng.usize_below(2);
+            Transaction::upgrade(upgrade_purpose(rng, v), pol, inputs, outputs, witnesses).into()
+        }
+        4 => {
+            let np = rng.small(5) as usize;
+            let body = UploadBody {
+                root: bytes32(rng),
+                witness_index: u16_biased(rng),
+                subsection_index: u16_biased(rng),
+                subsections_number: u16_biased(rng),
+                proof_set: (0..np).map(|_| bytes32(rng)).collect(),
+            };
+            Transaction::upload(body, pol, inputs, outputs, witnesses).into()
+        }
+        _ => {
+            let body = BlobBody { id: BlobId::new(b32(rng)), witness_index: u16_biased(rng) };
+            Transaction::blob(body, pol, inputs, outputs, witnesses).into()
+        }
+    }
+}
+
+/// Does the value contain an input whose distinguishing byte vector is empty (a shape the
+/// wire format cannot express — known finding F6)?
+pub fn inexpressible_input(i: &Input) -> Option<String> {
+    let e = |o: Option<&[u8]>| o.map(|b| b.is_empty()).unwrap_or(false);
+    match i {
+        Input::CoinPredicate(_) if e(i.input_predicate()) => Some("Input::CoinPredicate|predicate_len=0".into()),
+        Input::MessageCoinPredicate(_) if e(i.input_predicate()) => Some("Input::MessageCoinPredicate|predicate_len=0".into()),
+        Input::MessageDataSigned(_) if e(i.input_data()) => Some("Input::MessageDataSigned|data_len=0".into()),
+        Input::MessageDataPredicate(_) => {
+            let (d, p) = (e(i.input_data()), e(i.input_predicate()));
+            match (d, p) {
+                (true, true) => Some("Input::MessageDataPredicate|data_len=0,predicate_len=0".into()),
+                (true, false) => Some("Input::MessageDataPredicate|data_len=0".into()),
+                (false, true) => Some("Input::MessageDataPredicate|predicate_len=0".into()),
+                _ => None,
+            }
+        }
+        _ => None,
+    }
+}
